@@ -3,6 +3,8 @@ package genlab
 import (
 	"encoding/json"
 	"fmt"
+	"io"
+	"log"
 	"os"
 	"runtime/debug"
 
@@ -21,6 +23,7 @@ func init() {
 
 // Scan runs the code scanner (the library behind `swagger generate spec`) over packages of a module directory.
 func Scan(workDir string, pkgs []string, scanModels bool, input *spec.Swagger) (doc []byte, err error, panicked string) {
+	log.SetOutput(io.Discard)
 	defer func() {
 		if r := recover(); r != nil {
 			panicked = fmt.Sprintf("%v\n%s", r, tail(string(debug.Stack()), 1800))
